@@ -176,13 +176,22 @@ func buildStructCacheEntry(t reflect.Type, infos map[string]*FieldCacheEntry, fi
 				e = field.Type.Elem()
 			}
 			if e.Kind() == reflect.Struct {
-				buildStructCacheEntry(e, infos, append(fieldPath, field.Index))
+				buildStructCacheEntry(e, infos, extendFieldPath(fieldPath, field.Index))
 			}
 			continue
 		}
-		info := &FieldCacheEntry{JsonName: jsonName, isOmitEmpty: isOmitempty, omitzero: omitzero, fieldPath: append(fieldPath, field.Index), fieldType: field.Type}
+		info := &FieldCacheEntry{JsonName: jsonName, isOmitEmpty: isOmitempty, omitzero: omitzero, fieldPath: extendFieldPath(fieldPath, field.Index), fieldType: field.Type}
 		infos[jsonName] = info
 	}
+}
+
+// extendFieldPath returns a new path; sibling fields must not share the backing
+// array of their common prefix.
+func extendFieldPath(fieldPath [][]int, index []int) [][]int {
+	out := make([][]int, len(fieldPath)+1)
+	copy(out, fieldPath)
+	out[len(fieldPath)] = index
+	return out
 }
 
 // Fields returns a map of JSON field name to FieldCacheEntry for structs, or nil for non-structs.
